@@ -438,6 +438,27 @@ def run(ck):
                     ck.ratio("log_shape", str(shp), dlt, 8 * lie.u_of(lie.DT[dn]) * (1 + Y.tensor().abs().max().item()),
                              f"{G}.Log", "batched_differs_from_flat", {"shape": list(shp)})
                     monitor_log(ck, G, dn, Xt.tensor().reshape(-1, D).double().numpy(), monitor="log_shape_items")
+    # ---- realistic driver (added by the framework owner): Log calls made inside optimisers, IMU integration and
+    # splines are fed to the same monitor through the globally attached observer (inputs real use produces)
+    from .. import attach
+    busy = [False]
+
+    def on_log(G, X, x):
+        if busy[0]:
+            return
+        dn = "f64" if X.dtype == torch.float64 else "f32" if X.dtype == torch.float32 else None
+        if dn is None or not torch.isfinite(X).all():
+            return
+        busy[0] = True
+        try:
+            monitor_log(ck, G, dn, X.double().numpy(), monitor="log_attached", clauses=False)
+        finally:
+            busy[0] = False
+    with attach.observe(on_log=on_log) as st:
+        for dt_ in (torch.float64, torch.float32):
+            attach.realistic_workloads(ck.rng("attached"), dt_, steps=10 if ck.tier == "thorough" else 6)
+    ck.note_add("attached_log_calls", st["log_calls"])
+    ck.floor("log_attached", 50)
     ck.floor("log_expm", 1000)
     ck.floor("log_negq", 500)
     ck.floor("log_inv", 500)
